@@ -60,6 +60,9 @@ GRV_CMD(scale) {
                 SegP p1 = project(s1, face, gf, true);
                 ++pairs; ++g_cases;
                 if (!p1.wf.empty()) report_fail(p1.wfprop.c_str(), p1.wf, "null");
+                // Segment.h: for an unhinted font the face may be omitted when asking for a slot's advance
+                if (s1) { size_t k = 0; for (const gr_slot *q = gr_seg_first_slot(s1); q && k < p1.slots.size(); q = gr_slot_next_in_segment(q), ++k)
+                    if (gr_slot_advance_X(q, 0, gf) != p1.slots[k].ax) { vj::W w; w.str("font", font).i("line", ln).i("p2", p2).i("slot", (long long)k); report_fail("C15", "gr_slot_advance_X without a face differs from the value with the face for an unhinted font", w.done()); break; } }
                 // structure strings (font independent part) and position vectors
                 auto structure = [](const SegP &p) { std::string r; char b[96]; for (auto &s : p.slots) { snprintf(b, sizeof b, "g%d i%d b%d a%d o%d p%d c%d s%d;", s.gid, s.index, s.before, s.after, s.original, s.parent, s.firstChild, s.nextSib); r += b; }
                                                      for (auto &c : p.chars) { snprintf(b, sizeof b, "u%X b%d a%d;", c.usv, c.before, c.after); r += b; } return r; };
